@@ -261,6 +261,8 @@ class Engine:
             return FuncRef(mod.dotted, name)          # class reference (constructor)
         if name in mod.imports:
             return self.resolve_dotted(mod.imports[name])
+        if name == "LOGGER":
+            return LoggerObj()
         if name in mod.assigns:
             return self.eval_module_const(mod, name)
         if name in BUILTIN_EXC or name in EXC_ALIAS:
@@ -506,7 +508,10 @@ class Engine:
             return
         if spec is None:
             raise Unsupported(f"loop #{ordinal} at line {node.lineno} iterates over symbolic data and has no invariant")
+        self.last_dict_pos = None
         seq = self.as_sequence(it)
+        if self.last_dict_pos is not None:
+            self.frame.env["_pos%d" % ordinal] = self.last_dict_pos     # ghost: iteration position of a key (bijection with _seq)
         self.inductive_loop(node, ordinal, spec, seq=seq)
 
     def ex_While(self, node):
@@ -634,6 +639,7 @@ class Engine:
         self.assume(z3.ForAll([x], z3.Implies(z3.Select(d.dom, x), z3.And(0 <= pos(x), pos(x) < n, arr[pos(x)] == x))))
         if len(d.k.sorts()) != 1:
             raise Unsupported("iteration over dict with composite keys")
+        self.last_dict_pos = pos
         return SList(d.k, n, [arr])
 
     # ---- assignment
@@ -1197,7 +1203,11 @@ class Engine:
         kwargs = {}
         for kw in node.keywords:
             if kw.arg is None:
-                raise Unsupported("**kwargs call")
+                d = self.ev(kw.value)
+                if isinstance(d, dict) and all(isinstance(k, str) for k in d):
+                    kwargs.update(d)
+                    continue
+                raise Unsupported("**kwargs call with a non-literal mapping")
             kwargs[kw.arg] = self.ev(kw.value)
         return self.call(fn, args, kwargs, node)
 
@@ -1210,6 +1220,9 @@ class Engine:
             return impl(self, node, *args, **kwargs)
         if isinstance(fn, FuncRef):
             return self.call_repo(fn, args, kwargs, node)
+        if isinstance(fn, BoundMethod) and isinstance(fn.obj, LoggerObj):
+            self.events.append(("log", fn.name, getattr(node, "lineno", 0)))
+            return None
         if isinstance(fn, BoundMethod):
             return self.call_method(fn, args, kwargs, node)
         if isinstance(fn, Closure):
@@ -1396,6 +1409,10 @@ class SpecCtx:
 
     def __getitem__(self, k):
         return self.env[k]
+
+
+class LoggerObj:
+    """module-level LOGGER: calls have no effect on the verified state (messages are recorded as ghost events)"""
 
 
 class AList(list):
